@@ -8,10 +8,18 @@ is reflexive, symmetric, transitive, and equal schemas give identical verdicts o
 pair the real code calls equal.
 """
 from . import absmap as am
+from .common import safe_repr
 from . import core, mutants, valgen
 from .subcommon import ok_validate
 
 CONST_TAPES = [["lo"], ["lo1"], ["hi1"], ["hi"]]
+
+
+def _safe(f):
+    try:
+        return f()
+    except Exception:
+        return False
 
 
 def describe(e):
@@ -68,18 +76,22 @@ def main(chk):
     ne_bad = [False] * n
     for i, (_, x) in enumerate(reals):
         for j, (_, y) in enumerate(reals):
-            e = bool(x == y)
-            eq[i][j] = e
-            if bool(x != y) == e:
+            try:
+                e = bool(x == y)
+                eq[i][j] = e
+                if bool(x != y) == e:
+                    ne_bad[i] = True
+            except Exception:          # a comparison that raises is neither equal nor a proper negation
+                eq[i][j] = False
                 ne_bad[i] = True
     chk.count("pairs_compared", n * n)
     events = []
     for i, (a, x) in enumerate(reals):
         rebuilt = am.g_schema(a)
         probes = probe_values(x, nprobes, chk.rng)
-        ev = {"id": i + 1, "a": a, "arepr": repr(x)[:200],
+        ev = {"id": i + 1, "a": a, "arepr": safe_repr(x)[:200],
               "refl": eq[i][i],
-              "rebuilt_eq": bool(x == rebuilt) and not bool(x != rebuilt) and bool(rebuilt == x),
+              "rebuilt_eq": _safe(lambda: bool(x == rebuilt) and not bool(x != rebuilt) and bool(rebuilt == x)),
               "ne_ok": not ne_bad[i],
               "sym_ok": all(eq[i][j] == eq[j][i] for j in range(n)),
               "trans_ok": True, "value_ok": True, "equals": []}
@@ -98,7 +110,7 @@ def main(chk):
             if j != i and eq[i][j]:
                 b, y = reals[j]
                 pr = probes + probe_values(y, nprobes, chk.rng)
-                ev["equals"].append({"b": b, "brepr": repr(y)[:200],
+                ev["equals"].append({"b": b, "brepr": safe_repr(y)[:200],
                                      "probes": [{"w": w_abs, "ok_a": ok_validate(x, w_real),
                                                  "ok_b": ok_validate(y, w_real)} for w_abs, w_real in pr]})
                 chk.count("distinct_pairs_equal")
